@@ -111,6 +111,26 @@ def run(ctx):
                 ctx.check("C04.R1", inst + " only in the append arm", ok, f.where(n), f"{f.qualname}: {norm(n)} outside the append test", "seek on the user's output outside the arm guarded by _is_appendable(...)")
             else:
                 ctx.violation("C04.R1", inst, f.where(n), f"{f.qualname}: {norm(n)}", "writing a new container file must need only write and flush on the output stream")
+    # a stream method taken as a value (`getattr(fo, 'tell', None)`, `t = fo.tell`) is going to be called somewhere the
+    # table above cannot see: on user streams only write / read may be taken that way
+    for f in p.all_functions():
+        if f.mod.short not in ("_read_py", "io.binary_decoder", "_write_py", "io.binary_encoder", "_write_common"):
+            continue
+        callfuncs = {id(n.func) for n in walk_local(f.node) if isinstance(n, ast.Call)}
+        for n in walk_local(f.node):
+            recv = meth = None
+            if isinstance(n, ast.Call) and isinstance(n.func, ast.Name) and n.func.id == "getattr" and len(n.args) >= 2 and isinstance(n.args[1], ast.Constant) and n.args[1].value in STREAM_METHODS:
+                recv, meth = norm(n.args[0]), n.args[1].value
+            elif isinstance(n, ast.Attribute) and isinstance(n.ctx, ast.Load) and n.attr in STREAM_METHODS and id(n) not in callfuncs:
+                recv, meth = norm(n.value), n.attr
+            if recv is None:
+                continue
+            is_in = recv in INPUT_RECV and f.mod.short in ("_read_py", "io.binary_decoder")
+            is_out = recv in OUTPUT_RECV and f.mod.short in ("_write_py", "io.binary_encoder", "_write_common")
+            if not (is_in or is_out):
+                continue
+            ok = (is_in and meth == "read") or (is_out and meth == "write")
+            ctx.check("C04.R1", f"{f.qualname}: {recv}.{meth} taken as a value", ok, f.where(n), f"{f.qualname}: {norm(n)}", "a positioning / probing method of the user's stream is kept to be called later: a pipe or socket has the method and raises when it is called; a new file must need only write and flush, reading only sized reads")
     if n_sites < 25:
         raise AnalysisError(f"only {n_sites} stream call sites classified (about 40 expected)")
     ctx.extra["stream_call_sites"] = n_sites
@@ -179,6 +199,26 @@ def run(ctx):
         f, n = stores[spec.SCHEMA_KEY][0]
         ok = isinstance(n.value, ast.Call) and norm(n.value.func) == "json.dumps"
         ctx.check("C04.R2", "avro.schema is the JSON text of the schema", ok, f.where(n), f"{f.qualname}: {norm(n)}", "the header schema is not json.dumps of the schema")
+    # write_header writes every entry it is given (an empty value is a value)
+    wh = p.maybe_func("_write_py:write_header")
+    if wh is not None and len(wh.pos_params) >= 2:
+        mp = wh.pos_params[1]
+        comps = [c for n in walk_local(wh.node) if isinstance(n, (ast.DictComp, ast.GeneratorExp, ast.ListComp)) for c in n.generators if norm(c.iter) in (f"{mp}.items()", mp, f"{mp}.keys()")]
+        loops = [n for n in walk_local(wh.node) if isinstance(n, ast.For) and norm(n.iter) in (f"{mp}.items()", mp, f"{mp}.keys()")]
+        if comps and not loops:
+            filt = [norm(i) for c in comps for i in c.ifs]
+            ctx.check("C04.R2", "write_header: every metadata entry is written (no filter on the entries)", not filt, wh.where(), f"write_header: entries filtered by {filt}", "an entry the caller supplied (an empty string is a value) is dropped from the header: the reader does not report the metadata that was written")
+        elif loops and not comps:
+            def stores_in(stmts):
+                return any(isinstance(x, (ast.Assign, ast.AugAssign)) and any(isinstance(t, ast.Subscript) for t in (x.targets if isinstance(x, ast.Assign) else [x.target])) for st in stmts for x in ast.walk(st))
+
+            cond = []
+            for lp in loops:
+                cond += ["continue / break" for n in ast.walk(lp) if isinstance(n, (ast.Continue, ast.Break))][:1]
+                cond += [norm(n.test) for n in ast.walk(lp) if isinstance(n, ast.If) and stores_in(n.body) != stores_in(n.orelse)]
+            ctx.check("C04.R2", "write_header: every metadata entry is written (no filter on the entries)", not cond, wh.where(), f"write_header: entries filtered by {cond}", "an entry the caller supplied (an empty string is a value) is dropped from the header: the reader does not report the metadata that was written")
+        else:
+            ctx.unrecognised("C04.R2", "write_header: every metadata entry is written", wh.where(), "the iteration over the metadata entries was not found")
     rh = p.func("_read_py:file_reader._read_header")
     want = {
         "self.metadata": lambda t: "self._header['meta']" in t and ".decode()" in t,
